@@ -369,6 +369,7 @@ pub fn props(args: &[String]) {
                     if !e2 || !e3 { add("ord-l1-perm", format!("l=1: the reversed sequence changes the signature (m={}, {} distinct elements)", m, n), inp.clone()); }
                     // for a uniform ranking a slot's winner lies in the second half with probability 1/2
                     let z = (changed as f64 - m as f64 / 2.0) / (m as f64 / 4.0).sqrt();
+                    if std::env::var("VERIF_SHOW_Z").is_ok() { eprintln!("late-winners m={} z={:.2}", m, z); }
                     if m >= 64 && z.abs() > 7.0 {
                         add("ord-late-winners", format!("m={}, l=1: {} of {} slots are won by the second half of {} distinct elements (expected half, z = {:.1})", m, changed, m, n, z), inp.clone());
                     }
@@ -413,6 +414,34 @@ pub fn mc(args: &[String]) {
 }
 
 /// debugging / replay aid: prints, per position, the selected (value bits, element, occurrence) of two sequences
+/// replay of an implementation-level finding of ord-props: {"m", "l", "a": [..] | "(0..N).map(|i| i * K + C)", "b": [..]?}
+/// prints the signatures of a (twice on one instance), of b or reversed a, and of a new sketcher
+pub fn replay(args: &[String]) {
+    let spec: Value = serde_json::from_str(&arg_str(args, "--case").expect("--case")).expect("json");
+    let m = spec["m"].as_u64().unwrap_or(8) as u32;
+    let l = spec["l"].as_u64().unwrap_or(1) as usize;
+    let seq = |v: &Value| -> Option<Vec<u64>> {
+        if let Some(a) = v.as_array() { return Some(a.iter().filter_map(|x| x.as_u64()).collect()); }
+        let s = v.as_str()?;
+        // "(0..N).map(|i| i * K + C)"
+        let nums: Vec<u64> = s.split(|c: char| !c.is_ascii_digit()).filter(|t| !t.is_empty()).filter_map(|t| t.parse().ok()).collect();
+        if nums.len() >= 4 { Some((0..nums[1]).map(|i| i.wrapping_mul(nums[2]).wrapping_add(nums[3])).collect()) } else { None }
+    };
+    let a = match seq(&spec["a"]) { Some(a) => a, None => { println!("{}", json!({"replay": "input has no sequence `a`", "input": spec})); return; } };
+    let b = seq(&spec["b"]).unwrap_or_else(|| { let mut r = a.clone(); r.reverse(); r });
+    let mut s = ProbOrdMinHash2::<FnvHasher>::new(m, l);
+    let s1 = s.hash_set(&a);
+    let s2 = s.hash_set(&a);
+    let s3 = s.hash_set(&b);
+    let mut f = ProbOrdMinHash2::<FnvHasher>::new(m, l);
+    let s4 = f.hash_set(&b);
+    let ne = |x: &Vec<u64>, y: &Vec<u64>| x.iter().zip(y.iter()).filter(|(p, q)| p != q).count();
+    crate::util::wd_pause();
+    println!("{}", json!({"m": m, "l": l, "len_a": a.len(), "len_b": b.len(), "positions_differing": {
+        "a_twice_on_one_instance": ne(&s1, &s2), "a_vs_b_on_one_instance": ne(&s1, &s3), "b_reused_vs_b_on_new_sketcher": ne(&s3, &s4)},
+        "note": "for l = 1 and b a permutation of a, all three counts must be 0"}));
+}
+
 pub fn show(args: &[String]) {
     let m = arg_u64(args, "--m", 8) as usize;
     let l = arg_u64(args, "--l", 1) as usize;
